@@ -2,10 +2,10 @@ package guards
 
 import (
 	"fmt"
-	"strings"
 	"go/token"
 	"go/types"
 	"sort"
+	"strings"
 
 	"golang.org/x/tools/go/ssa"
 )
@@ -554,9 +554,9 @@ func (a *FuncAn) edgeState(p, b *ssa.BasicBlock, idx int) *State {
 	}
 	// pool: state facts, lemmas and fired conditional lemmas of the predecessor state, old phis renamed
 	pool := a.proverFor(s).facts
-	var W []Lin     // facts that mention a new phi value
-	var keep []Lin  // state facts without eliminated atoms
-	var side []Lin  // everything else that mentions an eliminated atom (usable in combinations)
+	var W []Lin    // facts that mention a new phi value
+	var keep []Lin // state facts without eliminated atoms
+	var side []Lin // everything else that mentions an eliminated atom (usable in combinations)
 	nstate := len(s.facts)
 	sf := s.sortedFacts()
 	for i, f := range pool {
